@@ -302,7 +302,10 @@ class Check:
                     it = dict(it)
                     it["what"] = "unlisted deviation %s: %s" % (kid, it.get("what", ""))
                     self.violations.append(it)
-        rdir = os.path.join(VERIF, "evidence", "replay")
+        # VERIF_EVIDENCE_DIR: sweeps over seeds / seeded changes / scratch worktrees write elsewhere, so
+        # that /verif/evidence only ever holds runs against /repo itself
+        evdir = os.environ.get("VERIF_EVIDENCE_DIR") or os.path.join(VERIF, "evidence")
+        rdir = os.path.join(evdir, "replay")
         os.makedirs(rdir, exist_ok=True)
         for old in os.listdir(rdir):
             if old.startswith(self.prop + "_") and old.endswith(".json"):
@@ -342,8 +345,8 @@ class Check:
         ev = dict(property_id=self.prop, tier=self.tier, seed=self.seed, level=self.level, coverage=self.cov,
                   assumptions=self.assumptions, wall_s=wall, violations=nviol,
                   known_findings=sorted(self.known.keys()))
-        os.makedirs(os.path.join(VERIF, "evidence"), exist_ok=True)
-        json.dump(ev, open(os.path.join(VERIF, "evidence", self.prop + ".json"), "w"), indent=1, default=str)
+        os.makedirs(evdir, exist_ok=True)
+        json.dump(ev, open(os.path.join(evdir, self.prop + ".json"), "w"), indent=1, default=str)
         for l in lines:
             print(l)
         print("%s %s tier=%s seed=%d states=%d transitions=%d replayed=%d distinct_nontrivial=%d wall=%.1fs" % (
